@@ -13,6 +13,11 @@
 //	   four (:string-numbers, :exact-integers) combinations, given as keywords
 //	   and (shorter sequences) as json:use-* defaults.
 //
+// plus three history spaces: H (dump histories, hist.go), LOAD histories
+// (lhist.go) and O (object histories, ohist.go: one message / string / bytes
+// object loaded repeatedly under every sequence of per-call options, default
+// changes and in-place mutations of earlier results).
+//
 // The oracle is the RFC 8259 recogniser/decoder of ref.go with math/big
 // numbers (numval.go); encoding/json is imported only for the
 // json.RawMessage *type* an embedder hands to load-message.
@@ -1067,6 +1072,8 @@ func runCase(w *worker, raw json.RawMessage) ([]finding, error) {
 	case "hist", "lhist":
 		fs, _, err := histOnce(raw)
 		return fs, err
+	case "ohist":
+		return objHistOnce(raw)
 	}
 	return nil, fmt.Errorf("unknown case kind %q", head.Kind)
 }
